@@ -204,10 +204,41 @@ class Sim:
                 return self.ev(a[1], st)        # substr(pos, n): n (callers keep n <= size - pos)
             if len(a) == 1:
                 return base - self.ev(a[0], st)
+        # a local that is only ever a string literal (`constexpr std::string_view dash_dot = "/.";`)
+        if isinstance(e0, dict) and e0.get("k") == "ref" and e0.get("kind") in ("local", "static_local"):
+            init = self._literal_inits().get(e0.get("id") if e0.get("id") is not None else e0.get("name"))
+            if init is not None:
+                return Lin(c=init)
         p = X.path(e0) if isinstance(e0, dict) else None
         if p:
             return sym("size(%s)" % p)
         raise Abandon("length of " + X.show(e)[:40])
+
+    def _literal_inits(self):
+        if getattr(self, "_lit", None) is None:
+            self._lit = {}
+            written = set()
+            for b in self.f["blocks"]:
+                for s_ in b["stmts"]:
+                    for n in X.stmt_nodes(s_):
+                        if n.get("k") == "assign":
+                            t0 = X.strip(n["lhs"])
+                            if isinstance(t0, dict) and t0.get("k") == "ref":
+                                written.add(t0.get("id"))
+            for b in self.f["blocks"]:
+                for s_ in b["stmts"]:
+                    if s_["k"] != "decl":
+                        continue
+                    for v in s_["vars"]:
+                        i0 = X.strip(v.get("init")) if v.get("init") is not None else None
+                        while isinstance(i0, dict) and i0.get("k") == "construct" and len(i0.get("args", [])) in (1, 2):
+                            if len(i0["args"]) == 2 and X.const_val(i0["args"][1]) is None:
+                                break
+                            i0 = X.strip(i0["args"][0])
+                        if isinstance(i0, dict) and i0.get("k") == "lit" and i0.get("str") and v["id"] not in written:
+                            self._lit[v["id"]] = len(i0["v"])
+                            self._lit[v["name"]] = len(i0["v"])
+        return self._lit
 
     # ---- edits ------------------------------------------------------------------------------
     @staticmethod
